@@ -1101,9 +1101,10 @@ class SpiMasterInst(PInst):
     then carry ceil(sys/spi), computed here from the constructor arguments."""
 
     def __init__(self, dw, aligned, alphabet=None, divs=(2, 3, 4, 5), tag="", ncs=1, csr=False, default_div=None,
-                 max_len=None, pstarts=None):
+                 max_len=None, pstarts=None, manual=False):
         import math
         from litex.soc.cores.spi.spi_master import SPIMaster
+        self.manual = manual                      # mode B: whole regimes in manual chip-select mode (bulk transfers)
         pads = Record([("clk", 1), ("cs_n", ncs), ("mosi", 1), ("miso", 1)])
         sysf, spif = default_div if default_div else (1e6, 1e6 / 4)
         core = SPIMaster(pads, dw, sysf, spif, with_csr=csr, mode="aligned" if aligned else "raw")
@@ -1164,6 +1165,9 @@ class SpiMasterInst(PInst):
                         "pstart": rng.choice(self.pstarts or [1.0 / (3 * self.max_len * div), 0.2, 0.8]),
                         "sticky": rng.random() < 0.5,      # registers constant for the whole regime (overlapping starts)
                         "len": rng.randint(1, self.max_len), "word": rng.getrandbits(self.dw)}
+            if self.manual:
+                self._st["csm"] = 1 if rng.random() < 0.6 else 0
+                self._st["lb"] = 1 if rng.random() < 0.5 else 0
         st = self._st
         start = 1 if rng.random() < st["pstart"] else 0
         # software writes new length / word with a start issued while the core is idle (rarely also while it is busy)
@@ -1176,6 +1180,8 @@ class SpiMasterInst(PInst):
             st["cs"] = rng.randrange(1, 1 << self.ncs)
         cs = st["cs"] if rng.random() >= 0.002 * f else rng.randrange(0, 1 << self.ncs)
         csm = 1 if rng.random() < 0.002 * f else 0
+        if self.manual:
+            csm ^= st["csm"]
         return (start, st["len"], st["word"], cs, csm, st["lb"], st["div"], rng.randint(0, 1))
 
 
@@ -1779,3 +1785,199 @@ def mk_soc_watchdog(width=12, delay=5):
     soc, _, rst = soc_parts(wd_width=width, wd_delay=delay)
     return mk_watchdog(width, delay, with_halted=False, core=soc.watchdog0, crg=rst,
                        name="SoCMini.add_watchdog(width=%d,reset_delay=%d)" % (width, delay))
+
+
+# ---------------------------------------------------------------------------------------------------------
+# bitbang.py: software-driven I2C / SPI masters (stateless: pads are functions of the `w` fields and the bus)
+
+class BbI2cMonitor:
+    """Open-drain wiring: a pad is low iff the core or the rest of the bus pulls it low; the core pulls SCL low iff
+    w.scl = 0 and SDA low iff w.oe & ~w.sda; r.sda reads the SDA pad."""
+    def observe(self, letter, outs):
+        scl, oe, sda, escl, esda = letter
+        exp = (1 if (scl and escl) else 0, 0 if ((oe and not sda) or not esda) else 1)
+        if (outs[0], outs[1]) != exp or outs[2] != outs[1]:
+            return "pads (scl, sda, r.sda) = %r for w = (scl %d, oe %d, sda %d), bus = (%d, %d); expected %r" % (
+                tuple(outs), scl, oe, sda, escl, esda, exp + (exp[1],))
+        return None
+
+
+class BbI2cSimMonitor:
+    def observe(self, letter, outs):
+        scl, oe, sda, sin = letter
+        exp = (scl, sda if oe else 1, sda if oe else sin)
+        return None if tuple(outs) == exp else "pads (scl, sda_out, r.sda) = %r, expected %r" % (tuple(outs), exp)
+
+
+class BbSpiMonitor:
+    def __init__(self, ncs):
+        self.ncs = ncs
+
+    def observe(self, letter, outs):
+        clk, mosi, oe, cs, emosi, miso = letter
+        pad = mosi if oe else emosi
+        exp = (clk, (~cs) & ((1 << self.ncs) - 1), pad, miso, pad)
+        return None if tuple(outs) == exp else "pads (clk, cs_n, mosi, r.miso, r.mosi) = %r, expected %r" % (tuple(outs), exp)
+
+
+class _BbInst(PInst):
+    """Bit-banged cores: Tristate replaced by the open-drain/3-state stand-in (pad = oe ? o : ext)."""
+    def __init__(self, name, core, lean_open, inputs, outputs, alphabet, monitor, ext_of=()):
+        from migen.fhdl.specials import Tristate
+        self.name, self.module, self.lean_open = name, core, lean_open
+        OpenDrainSim.ext = {}
+        self.netlist = Netlist(core, special_overrides={Tristate: OpenDrainSim})
+        self.inputs = list(inputs) + [OpenDrainSim.ext[id(p)] for p in ext_of]
+        self.outputs = list(outputs)
+        self.qual = [None] * len(self.outputs)
+        self.alphabet = alphabet
+        self.monitor = monitor
+        self._gen = lambda rng, t: rng.choice(alphabet)
+        self._nontrivial = lambda l, o: True
+
+
+def mk_bb_i2c(sim=False):
+    from litex.soc.cores import bitbang
+    if sim:
+        pads = Record(bitbang.I2CMasterSim.pads_layout)
+        core = bitbang.I2CMasterSim(pads)
+        f = core._w.fields
+        inst = _BbInst("bitbang.I2CMasterSim", core, "bbi2csim", [f.scl, f.oe, f.sda, pads.sda_in],
+                       [pads.scl, pads.sda_out, core._r.fields.sda], prod((0, 1), (0, 1), (0, 1), (0, 1)), BbI2cSimMonitor)
+        return inst
+    pads = Record(bitbang.I2CMaster.pads_layout)
+    core = bitbang.I2CMaster(pads)
+    f = core._w.fields
+    return _BbInst("bitbang.I2CMaster", core, "bbi2c", [f.scl, f.oe, f.sda], [pads.scl, pads.sda, core._r.fields.sda],
+                   prod((0, 1), (0, 1), (0, 1), (0, 1), (0, 1)), BbI2cMonitor, ext_of=(pads.scl, pads.sda))
+
+
+def mk_bb_spi(ncs=4):
+    from litex.soc.cores import bitbang
+    pads = Record([("clk", 1), ("cs_n", ncs), ("mosi", 1), ("miso", 1)])
+    core = bitbang.SPIMaster(pads)
+    f = core._w.fields
+    inst = _BbInst("bitbang.SPIMaster(ncs=%d)" % ncs, core, "bbspi %d" % ncs, [f.clk, f.mosi, f.oe, f.cs],
+                   [pads.clk, pads.cs_n, pads.mosi, core._r.fields.miso, core._r.fields.mosi],
+                   prod((0, 1), (0, 1), (0, 1), tuple(range(16)), (0, 1), (0, 1)), lambda: BbSpiMonitor(ncs),
+                   ext_of=(pads.mosi,))
+    inst.inputs = inst.inputs + [pads.miso]
+    return inst
+
+
+# ---------------------------------------------------------------------------------------------------------
+# SPIMaster and SPISlave wired pad to pad (one clock)
+
+class SpiLinkTop(Module):
+    def __init__(self, dw, aligned, dws):
+        from litex.soc.cores.spi.spi_master import SPIMaster
+        from litex.soc.cores.spi.spi_slave import SPISlave
+        mp = Record([("clk", 1), ("cs_n", 1), ("mosi", 1), ("miso", 1)])
+        sp = Record([("clk", 1), ("cs_n", 1), ("mosi", 1), ("miso", 1)])
+        self.submodules.master = SPIMaster(mp, dw, 1e6, 1e6 / 4, with_csr=False, mode="aligned" if aligned else "raw")
+        self.submodules.slave = SPISlave(sp, dws)
+        self.comb += [sp.clk.eq(mp.clk), sp.cs_n.eq(mp.cs_n), sp.mosi.eq(mp.mosi), mp.miso.eq(sp.miso)]
+        self.mp, self.sp = mp, sp
+
+
+class SpiLinkMonitor:
+    """End-to-end scoreboard over both cores (only their software-visible ports): for a transfer started while the
+    master reported `done`, with cs selected in automatic mode, no loopback and registers held until it finishes:
+    the slave raises irq once, reports `length` = the master's length, and the low `length` bits of its received word
+    are the bits the master was told to send (MSB first; raw mode sends the top bits of the word); with divider >= 8
+    the master's received word is the top `length` bits of the word the slave was told to send."""
+
+    def __init__(self, dw, aligned, dws):
+        self.dw, self.aligned, self.dws = dw, aligned, dws
+        self.cur = None
+        self.prev_done = 1
+        self.checks = 0
+        self.t = 0               # pads.cs_n resets to 0: the slave sees a one-cycle frame right after reset (ignored)
+
+    def observe(self, letter, outs):
+        start, ln, word, cs, csm, lb, div, tx = letter
+        clk, csn, mosi, done, irq, miso, s_miso, s_start, s_len, s_done, s_irq, s_rx = outs
+        msg = None
+        self.t += 1
+        c = self.cur
+        if c is not None:
+            if (ln, word & ((1 << self.dw) - 1), cs, csm, lb, div) != c["held"] or (start and not c["fresh"]):
+                c["clean"] = False
+            c["fresh"] = False
+            if s_start:
+                c["tx"] = tx & ((1 << self.dws) - 1)
+                c["starts"] += 1
+            if done and not self.prev_done and not c["master_done"]:
+                c["master_done"] = True
+                if c["clean"] and c["div"] >= 8 and c["len"] <= self.dws and c["tx"] is not None and c["starts"] == 1:
+                    L = c["len"]
+                    exp = (c["tx"] >> (self.dws - L)) & ((1 << L) - 1)
+                    self.checks += 1
+                    if (miso & ((1 << L) - 1)) != exp:
+                        msg = "master received 0x%x, slave was sending 0x%x (top %d bits 0x%x)" % (miso, c["tx"], L, exp)
+            if s_irq:
+                if c["clean"] and c["starts"] == 1:
+                    L = c["len"]
+                    sent = (c["word"] if self.aligned else (c["word"] >> (self.dw - L))) & ((1 << L) - 1)
+                    k = min(L, self.dws)
+                    self.checks += 1
+                    if s_len != L:
+                        msg = "slave reports length %d after a %d-bit transfer" % (s_len, L)
+                    elif (s_rx & ((1 << k) - 1)) != (sent & ((1 << k) - 1)):
+                        msg = "slave received 0x%x, master sent the %d bits 0x%x" % (s_rx, L, sent)
+                    elif not c["master_done"]:
+                        msg = "slave frame ended before the master reported done"
+                self.cur = None
+        elif (start and done == 0 and self.prev_done and cs and not csm and not lb and 1 <= ln <= self.dw and div >= 2
+              and self.t > 8 and s_done):
+            # `done` drops combinationally in the start cycle
+            self.cur = {"held": (ln, word & ((1 << self.dw) - 1), cs, csm, lb, div), "len": ln, "div": div,
+                        "word": word & ((1 << self.dw) - 1), "clean": True, "fresh": True, "tx": None, "starts": 0,
+                        "master_done": False}
+        self.prev_done = done if not (start and self.cur is not None and self.cur["fresh"]) else 0
+        return msg
+
+
+class SpiLinkInst(PInst):
+    """letter = (start, length, mosi, cs, cs_mode, loopback, clk_divider, slave word to send)
+       outputs = master (pads.clk, pads.cs_n, pads.mosi, done, irq, miso), slave (pads.miso, start, length, done, irq, mosi)"""
+
+    def __init__(self, dw, aligned, dws, alphabet=None, divs=(2, 3, 8)):
+        top = SpiLinkTop(dw, aligned, dws)
+        m, s = top.master, top.slave
+        self.dw, self.aligned, self.dws, self.divs = dw, aligned, dws, list(divs)
+        PInst.__init__(self, "SPIMaster(%d,%s)<->SPISlave(%d)/div%s" % (dw, "aligned" if aligned else "raw", dws,
+                                                                        ",".join(map(str, divs))), top,
+                       "spilink %d %d %d" % (dw, 1 if aligned else 0, dws),
+                       [m.start, m.length, m.mosi, m.cs, m.cs_mode, m.loopback, m.clk_divider, s.miso],
+                       [top.mp.clk, top.mp.cs_n, top.mp.mosi, m.done, m.irq, m.miso,
+                        top.sp.miso, s.start, s.length, s.done, s.irq, s.mosi],
+                       alphabet, None, lambda l, o: l[0] or not o[3] or o[10])
+        self.netlist.set(s.loopback, 0)
+        self._reg = None
+
+    def monitor(self):
+        return SpiLinkMonitor(self.dw, self.aligned, self.dws)
+
+    def idle_letter(self, last):
+        return (0,) + tuple(last[1:])
+
+    def gen(self, rng, t):
+        if t == 0 or self._reg is None or (self._busy == 0 and rng.random() < 0.3):
+            if t == 0:
+                self._busy = 0
+                self._div = rng.choice(self.divs)     # one divider per run: lowering it below the free-running counter
+                                                      # stalls the master for up to 65536 cycles (known note)
+            if self._busy == 0:
+                div = self._div
+                ln = rng.randint(1, self.dw)
+                self._reg = [ln, rng.getrandbits(self.dw), 1, 0, 0, div, rng.getrandbits(self.dws)]
+                self._busy = (ln + 3) * div + 12
+                return (1,) + tuple(self._reg)
+        if self._busy:
+            self._busy -= 1
+        start = 1 if rng.random() < 0.004 else 0                          # rare overlapping start
+        if rng.random() < 0.001:
+            self._reg[rng.choice([1, 2, 3, 4])] ^= 1                      # rare disturbance of a held register
+            # (the length is left alone: length 0 would park the master in RUN for the rest of the run)
+        return (start,) + tuple(self._reg)
